@@ -4,6 +4,7 @@ package main
 
 import (
 	"bytes"
+	"context"
 	"fmt"
 	"net"
 	"os"
@@ -16,6 +17,7 @@ import (
 	"time"
 
 	"connectrpc.com/conformance/internal"
+	"connectrpc.com/conformance/internal/app/referenceclient"
 	conformancev1 "connectrpc.com/conformance/internal/gen/proto/go/connectrpc/conformance/v1"
 	"connectrpc.com/conformance/internal/verifkit"
 )
@@ -24,6 +26,13 @@ func init() {
 	// VERIF_PEER=count-server: a server under test that only records when it is alive
 	if os.Getenv("VERIF_PEER") == "count-server" {
 		os.Exit(vfCountServerMain())
+	}
+	// VERIF_PEER=ref-client: the repository's reference client as a client under test (what cmd/referenceclient runs)
+	if os.Getenv("VERIF_PEER") == "ref-client" {
+		if err := referenceclient.Run(context.Background(), []string{"referenceclient"}, os.Stdin, os.Stdout, os.Stderr); err != nil {
+			os.Exit(1)
+		}
+		os.Exit(0)
 	}
 }
 
@@ -154,6 +163,55 @@ func TestVerifC05CLI(t *testing.T) {
 		en.Rec.Observe(r, []string{fmt.Sprintf("maxServers:%d", r.MaxServers), fmt.Sprintf("parallel:%d", r.Parallel)}, r.Parallel > r.MaxServers)
 		if viol != nil && en.Fail(r, viol) {
 			break
+		}
+	}
+	// client mode with --port (documented: "implies --max-servers=1") and nothing said about --max-servers: the
+	// reference servers take turns on the one port, and the reference client (as client under test) passes every case
+	if !en.ReplayCase(&replay) {
+		r := row{0, 8, true}
+		viol := func() error {
+			lis, err := net.Listen("tcp", "127.0.0.1:0")
+			if err != nil {
+				return nil
+			}
+			port := lis.Addr().(*net.TCPAddr).Port
+			_ = lis.Close()
+			dir, err := os.MkdirTemp(".", "c05port")
+			if err != nil {
+				return nil
+			}
+			dir, _ = filepath.Abs(dir)
+			defer os.RemoveAll(dir)
+			cfg := filepath.Join(dir, "config.yaml")
+			_ = os.WriteFile(cfg, []byte("features:\n  versions: [HTTP_VERSION_1, HTTP_VERSION_2]\n  protocols: [PROTOCOL_CONNECT, PROTOCOL_GRPC, PROTOCOL_GRPC_WEB]\n  codecs: [CODEC_PROTO]\n  compressions: [COMPRESSION_IDENTITY]\n  streamTypes: [STREAM_TYPE_UNARY]\n  supportsTls: true\n  supportsConnectGet: false\n  supportsMessageReceiveLimit: false\n"), 0o644)
+			cli := []string{"--mode", "client", "--conf", cfg, "--port", fmt.Sprint(port), "--run", "Basic/**/unary/success", "--", "/usr/bin/env", "VERIF_MAIN=0", "VERIF_PEER=ref-client", self}
+			cmd := exec.Command(self, cli...)
+			cmd.Env = append(os.Environ(), "VERIF_MAIN=1")
+			var stdout, stderr bytes.Buffer
+			cmd.Stdout, cmd.Stderr = &stdout, &stderr
+			if err := cmd.Start(); err != nil {
+				return nil
+			}
+			done := make(chan error, 1)
+			go func() { done <- cmd.Wait() }()
+			select {
+			case err := <-done:
+				out := stdout.String() + stderr.String()
+				if strings.Contains(out, "address already in use") {
+					return verifkit.Violf("cli-port-servers-collide", "CLI %q: reference servers were started at the same time on the one port given with --port\n%.1200s", cli, out)
+				}
+				if err != nil && strings.Contains(out, "Total cases:") {
+					return verifkit.Violf("cli-port-run-fails", "CLI %q: the reference client fails cases against the reference servers taking turns on one port\n%.1500s", cli, out)
+				}
+				return nil
+			case <-time.After(4 * time.Minute):
+				_ = cmd.Process.Kill()
+				return nil
+			}
+		}()
+		en.Rec.Observe(r, []string{"fixed-port"}, true)
+		if viol != nil {
+			en.Fail(r, viol)
 		}
 	}
 	en.Done(true)
